@@ -23,7 +23,7 @@ import (
 // C11: a dealer whose private deal contradicts its public commitments is caught.
 func init() { Register("C11", "exploration", checkC11) }
 
-var c11Kinds = []string{"deal-bitflip", "deal-truncated", "deal-10-bytes", "deal-to-wrong-key", "deal-from-other-polynomial", "deal-share-off-polynomial", "commitments-shortened", "commitments-lengthened", "response-turned-into-complaint", "response-turned-into-signed-complaint"}
+var c11Kinds = []string{"deal-bitflip", "deal-truncated", "deal-10-bytes", "deal-1-byte", "deal-9-bytes", "deal-to-wrong-key", "deal-from-other-polynomial", "deal-share-off-polynomial", "commitments-shortened", "commitments-lengthened", "response-turned-into-complaint", "response-turned-into-signed-complaint"}
 
 func checkC11(c *Ctx) {
 	c.Rule = "full key generations in which the operator driver rewrites one dealer's result between its machine and its node: deal ciphertext bit-flipped / truncated / cut to 10 bytes, deal re-encrypted to another participant's key, a self-consistent deal from a second kyber dealer with the dealer's long-term key but fresh coefficients, broadcast commitment list shortened / lengthened, a response turned into a complaint; every (dealer, victim) pair, all (n,t) with n<=3 (quick) / n<=4 (thorough), random delivery. Oracle at quiescence: the victim's machine answered the responses step with the error event, no node is signing-ready and every node is in a cancelled state, no machine stores a keyring for the round; on any signing-ready round the C02 invariant must hold. Honest control runs must reach signing-ready. distinct = distinct (n,t,kind,dealer,victim)"
@@ -123,6 +123,10 @@ func runC11(c *Ctx, n, t, D, V int, kind string, seed uint64) {
 					r.Deal = r.Deal[:len(r.Deal)/2]
 				case "deal-10-bytes":
 					r.Deal = r.Deal[:10]
+				case "deal-1-byte":
+					r.Deal = r.Deal[:1]
+				case "deal-9-bytes":
+					r.Deal = r.Deal[:9]
 				case "deal-to-wrong-key":
 					skV := oracle.LongTermKey(oracle.SeedFromMnemonic(w.Nodes[V].Mnemonic))
 					if !suite.Point().Mul(skV, nil).Equal(pubKeys[V]) {
